@@ -26,6 +26,52 @@ CLAIMED["C03"] = dict(engine="split", design="4 C03",
         "correspondence (every block attribute compared) and an independent Python tiling/line oracle.",
    note="CPython's isspace and \\w enter as per-character flags; model hand-written, tied by correspondence; extraction cross-checked by vm_compute",
    technique="Coq proof (ghost-state invariant over the splitter fold) + differential correspondence via extracted model")
+
+CLAIMED["C04"] = dict(engine="split", design="4 C04",
+   text="Coq theorems for ALL texts: resynchronisation (arbitrary garbage followed by a line starting with a block start: that block and "
+        "everything after it are parsed exactly as on their own, shifted by the preceding lines; what precedes accounts for the garbage only), "
+        "prefix stability (a text after which the machine has just closed a block keeps its blocks whatever follows) and the concatenation "
+        "law; tied to /repo by differential correspondence on triples (well-formed prefix, arbitrary middle, well-formed suffix) and an "
+        "independent Python oracle comparing with the neighbours parsed alone.",
+   note="'well-formed document ending in a complete block' is expressed on the machine state (mode Out, empty pending text); its link to the "
+        "grammar is C02; model hand-written, tied by correspondence; extraction cross-checked by vm_compute",
+   technique="Coq proof (simulation relation between two runs of the splitter machine, line-shifted) + differential correspondence via extracted model")
+CLAIMED["C09"] = dict(engine="split", design="4 C09",
+   text="Coq theorems: Library.add on any sequence of raw blocks = the source list with every later same-key Entry/String replaced at its own "
+        "position by a duplicate-key block holding the key, the FIRST block and the complete duplicate (count preserved, first wins in both "
+        "key indexes, duplicate-field blocks never registered); for every text an entry repeating a field name is emitted as a duplicate-field "
+        "block whose inner entry keeps every occurrence; tied to /repo by correspondence on grammar documents with colliding key pools "
+        "(incl. previous_block identity) and an independent Python oracle.",
+   note="'one raw block per source block of a well-formed document' is C02's theorem/correspondence; model hand-written, tied by correspondence",
+   technique="Coq proof (fold invariant over Library.add; field-name invariant over the splitter machine) + differential correspondence via extracted model")
+CLAIMED["C19"] = dict(engine="entry", design="4 C19",
+   text="Coq theorems over the Entry model (fields_dict rebuilt from the field list, set_field, pop, get, in, [], []=, del, items): "
+        "every operation sequence on an entry with distinct keys refines an insertion-ordered dictionary (induction over the call list), "
+        "the three views always agree, ENTRYTYPE/ID lookups, and Field/Block == is exactly same-class-and-same-content; tied to /repo by "
+        "bounded-exhaustive and random operation sequences and single-attribute perturbation / copy pairs, plus an independent Python oracle (reference dict).",
+   note="values containing dicts or foreign objects are outside the executable equality model (oracle only); failed-block equality is covered by the library engine (identity of the error object); "
+        "model hand-written, tied by correspondence; extraction cross-checked by vm_compute",
+   technique="Coq proof (refinement by induction over histories; reflection of == against a structural relation) + differential correspondence via extracted model")
+CLAIMED["C17"] = dict(engine="sortfields", design="4 C17",
+   text="Coq theorems over executable models of SortFieldsAlphabeticallyMiddleware, SortFieldsCustomMiddleware (incl. constructor) and "
+        "NormalizeFieldKeys for all field lists / order lists / block lists: stable sorted permutation (and its uniqueness, which justifies "
+        "modelling sorted() by insertion sort), explicit listed-first form, ValueError iff duplicates after folding, normalisation = "
+        "first-occurrence key order with last-occurrence values, frame, idempotence; tied to /repo by differential correspondence through "
+        "the real middleware classes' transform(library) and an independent Python oracle of the property text.",
+   note="sorted() assumed to meet the stable-sort contract (unique result proved); str.lower is the ASCII instance (other cased letters are "
+        "checked by the Python oracle only); blocks of the input library share no objects (aliasing is C07); model hand-written, tied by "
+        "correspondence; extraction cross-checked by vm_compute",
+   technique="Coq proof (induction over lists) + differential correspondence via extracted model + independent oracle")
+CLAIMED["C16"] = dict(engine="sortblocks", design="4 C16",
+   text="Coq theorems over an executable model of SortBlocksByTypeAndKeyMiddleware.transform (junk grouping, exact-class rank, (rank,key) "
+        "tuple order, Library rebuild) for all block lists satisfying the Library key invariant and all order lists: permutation, sorted and "
+        "stable on units, comment runs stay attached, uniqueness of the result under the stable-sort contract; tied to /repo by differential "
+        "correspondence over a 12-block universe x all 326 type orders x both comment modes and an independent Python oracle (incl. input "
+        "library unchanged).",
+   note="list.sort assumed to meet the stable-sort contract (unique result proved); deepcopy assumed structure-preserving; 'input library "
+        "unchanged' is checked by the harness oracle only (heap-level statement belongs to C07); model hand-written, tied by correspondence; "
+        "extraction cross-checked by vm_compute",
+   technique="Coq proof (induction over lists/derivations) + differential correspondence via extracted model + independent oracle")
 PENDING = {}
 
 def main():
